@@ -121,31 +121,31 @@ func (c *Checker) writeEvidence(plans []runPlan, nviol int, known *KnownFindings
 	}
 	sort.Strings(builds)
 	cov := map[string]interface{}{
-		"evaluations":         c.evaluations(),
-		"distinct_nontrivial": c.distinct(),
-		"rule":                ruleOf[c.Prop],
-		"samples":             a.Samples,
-		"runs":                a.Runs,
-		"runs_per_hour":       int(float64(a.Runs) / wall * 3600),
-		"runs_by_configuration": a.ByLabel,
-		"operations":          a.Ops,
-		"simulated_time":      map[string]interface{}{"unit": "logical steps (yield points passed); frugal reads no clock", "steps": a.Steps, "context_switches": a.Switches},
-		"distinct_schedule_hashes": len(a.SchedHashes),
+		"evaluations":               c.evaluations(),
+		"distinct_nontrivial":       c.distinct(),
+		"rule":                      ruleOf[c.Prop],
+		"samples":                   a.Samples,
+		"runs":                      a.Runs,
+		"runs_per_hour":             int(float64(a.Runs) / wall * 3600),
+		"runs_by_configuration":     a.ByLabel,
+		"operations":                a.Ops,
+		"simulated_time":            map[string]interface{}{"unit": "logical steps (yield points passed); frugal reads no clock", "steps": a.Steps, "context_switches": a.Switches},
+		"distinct_schedule_hashes":  len(a.SchedHashes),
 		"distinct_first_use_orders": len(a.FirstUse),
-		"faults_injected":     map[string]interface{}{"fired": a.FaultFired, "changed_the_bytes_read": a.FaultReached, "events": a.Events, "pool_decisions": a.Pool, "forced_gcs_mid_operation": a.GCs},
-		"validator_verdicts":  a.Verdicts,
-		"rare_condition_probes": probes,
-		"yield_sites":         map[string]interface{}{"total": sitesTotal, "executed": sitesHit, "never_reached_sample": never},
-		"outcomes":            a.Counters,
-		"baseline_fresh_processes": a.BaselineRuns,
+		"faults_injected":           map[string]interface{}{"fired": a.FaultFired, "changed_the_bytes_read": a.FaultReached, "events": a.Events, "pool_decisions": a.Pool, "forced_gcs_mid_operation": a.GCs},
+		"validator_verdicts":        a.Verdicts,
+		"rare_condition_probes":     probes,
+		"yield_sites":               map[string]interface{}{"total": sitesTotal, "executed": sitesHit, "never_reached_sample": never},
+		"outcomes":                  a.Counters,
+		"baseline_fresh_processes":  a.BaselineRuns,
 		"baseline_results_from_cache_of_this_tree": a.BaselineCached,
-		"digests_compared":    a.DigestCompared,
-		"determinism_pairs_checked": a.DetPairs,
-		"race_detector":       map[string]interface{}{"reports": a.RaceReports, "reports_in_harness_only": a.RaceHarness},
-		"children_died":       a.Crashed,
-		"builds":              builds,
-		"case_classes_sample": tagList,
-		"wall":                a.Wall,
+		"digests_compared":                         a.DigestCompared,
+		"determinism_pairs_checked":                a.DetPairs,
+		"race_detector":                            map[string]interface{}{"reports": a.RaceReports, "reports_in_harness_only": a.RaceHarness},
+		"children_died":                            a.Crashed,
+		"builds":                                   builds,
+		"case_classes_sample":                      tagList,
+		"wall":                                     a.Wall,
 		"real_vs_simulated": map[string]interface{}{
 			"real":      []string{"every frugal package, from /repo's working tree (plus inert Yield calls)", "Go runtime: allocator, GC, maps, reflect", "cloudwego/gopkg thrift (skipper, exceptions), unmodified", "the real sync.Mutex / atomics inside the shims"},
 			"simulated": []string{"goroutine scheduling (token scheduler, seeded)", "sync.Pool hand-out policy and flushes", "GC trigger points", "lock waiting (cooperative)", "the wire between writers and readers incl. foreign writers (reference encoder) and the fault injector", "caller buffers (guard pages, canaries)", "process environment"},
